@@ -604,7 +604,8 @@ def run_check(pid, tier, seed):
     obligation_broken = (not proof_ok) or bool(scan) or bool(bad_axioms) or bool(regen_problems) or bool(err)
     if obligation_broken and not violations:
         # search harder for a concrete failing input before giving up
-        if infra_fail is None and tier != "thorough" and not err:
+        # (VERIF_NO_DEEP_SEARCH=1: development switch used when tabulating many changes; never set by a registered command)
+        if infra_fail is None and tier != "thorough" and not err and os.environ.get("VERIF_NO_DEEP_SEARCH") != "1":
             e2 = correspondence("thorough")
             tiers_run.append("thorough(search)")
         if not violations:
